@@ -41,7 +41,7 @@ def main():
             notes = (m.group(1) if m else txt.strip().splitlines()[0]).strip(' *#-')[:110]
         rows.append('| %s | %s | %s | %s |' % (s, ', '.join(f.replace('stdnum/', '') for f in files_of(patch))[:48], notes.replace('|', '/'),
                                                '; '.join(hits) if hits else ('not decided: ' + und if und else '**not caught**')))
-    head = ('%d seeded changes (four rounds of 18 independent sub-agents x 3; from round 3 on the authors were asked for changes that a monitor built around the obvious cases would miss). %d are caught by the quick tier of the check of '
+    head = ('%d seeded changes (five rounds of 18 independent sub-agents x 3; from round 3 on the authors were asked for changes that a monitor built around the obvious cases would miss). %d are caught by the quick tier of the check of '
             'the property they were written against, %d more only by another check (state- and thread-dependent changes are '
             'C13\'s business whatever property they were aimed at), %d by none (see the note in the last column).\n\n'
             '| seed | files | mechanism (from the author\'s notes) | caught by (first new signature) |\n|---|---|---|---|\n' % (
